@@ -607,7 +607,9 @@ UnitFaulty == sc.nobble \/ sc.echoflip \/ (LockableRow(row) /\ sc.unlock # 85) \
 WriteOK ==
     (Ended /\ sc.op = "write") =>
         /\ (~WritableRow(row) => exc = "MemoryValueNotWriteable" /\ log = <<>>)
-        /\ (exc = "none" /\ ~sc.ignore => Stored /\ (LockableRow(row) => Fin[3] # 85))
+        /\ (exc = "none" /\ ~sc.ignore => Stored)
+        /\ (exc = "none" /\ LockableRow(row) => Fin[3] # 85)           \* locked again, feedback ignored or not
+        /\ (exc = "none" /\ sc.ignore /\ ~UnitFaulty => Stored)
         /\ (WritableRow(row) /\ ~sc.ignore /\ UnitFaulty => exc # "none")
         /\ (WritableRow(row) /\ ~UnitFaulty => exc = "none")
         /\ exc \in {"none", "MemoryValueNotWriteable", "MemoryLocationNotWriteable", "ResponseError", "MemoryWriteFailure"}
